@@ -213,5 +213,6 @@ func (p *Program) NewInterp(cfg *Config) (in *Interp, err error) {
 	_ = saved
 	in.fnCount = map[*ssa.Function]int64{}
 	in.initDone = true
+	in.snapshotGlobals()
 	return in, nil
 }
